@@ -1355,8 +1355,9 @@ impl ContextualHuffmanEncoder {
             context_map.insert(context, tree_idx);
         }
 
-        // Read trees
-        let mut trees = Vec::with_capacity(tree_count);
+        // Read trees.  Each tree record starts with a 4-byte size, so the remaining input
+        // bounds how many trees can follow; do not reserve for more than that.
+        let mut trees = Vec::with_capacity(tree_count.min((data.len() - offset) / 4));
         for _ in 0..tree_count {
             if offset + 4 > data.len() {
                 return Err(ZiporaError::invalid_data("Truncated tree size"));
@@ -1372,6 +1373,15 @@ impl ContextualHuffmanEncoder {
 
             let tree = HuffmanTree::deserialize(tree_data)?;
             trees.push(tree);
+        }
+
+        // The coders index `trees` with the context map (and fall back to tree 0), so a
+        // model without trees or with a dangling tree index cannot be used.
+        if trees.is_empty() {
+            return Err(ZiporaError::invalid_data("Contextual Huffman model has no trees"));
+        }
+        if context_map.values().any(|&tree_idx| tree_idx >= trees.len()) {
+            return Err(ZiporaError::invalid_data("Context map refers to a missing tree"));
         }
 
         Ok(Self {
